@@ -402,6 +402,8 @@ def check_sections(fx, rep, rule, wv, seqs):
             return results
         st, _ = it_paths[0]
         effs = [fc.rewrite(inner_extends.get(e[1], e) if e[0] == "loopsum" else e, R.rw_iter) for e in st.effects]
+        if getattr(rl, "_unwrap_rw", None):
+            effs = [fc.rewrite(e, rl._unwrap_rw) for e in effs]     # (member maps wrapped together with their de-dup set)
         idx = FL_["index"]
         vecs = {}   # section name -> vector var name
         def pl_name(pl):
@@ -519,6 +521,15 @@ def check_order(fx, rep, rule, wv):
         rep.floor(rule, 0, 1, "ClassInProgress")
         return
     tys = {f["name"]: f["ty"] for f in cip["variants"][0]["fields"]}
+    # a member map wrapped in a private struct together with its de-dup set: the container is the wrapper's map field (the one
+    # the record loop pushes through, builders.RecordLoop.unwrapped)
+    for fname_, wf_ in (getattr(wv.rl, "unwrapped", None) or {}).items():
+        wt_ = re.sub(r"<.*$", "", tys.get(fname_, "")).split("::")[-1]
+        for a_ in fx.all_adts("proguard"):
+            if wt_ and a_["path"].split("::")[-1] == wt_ and not a_.get("reachable_pub") and a_.get("kind") == "Struct":
+                inner_ = {f_["name"]: f_["ty"] for f_ in a_["variants"][0]["fields"]}
+                if wf_ in inner_:
+                    tys[fname_] = inner_[wf_]
     rep.check(rule, "%s/container/members" % rule, tys.get("members", "").startswith("std::collections::BTreeMap<&") and "Vec<cache::raw::Member>" in tys.get("members", ""),
               loc=F.short_file(cip["sp"]), found="members: %s" % tys.get("members"), expected="BTreeMap<&str, Vec<Member>> (sorted by obfuscated name, file order within)")
     def pair_key_ok(ty):
